@@ -347,6 +347,26 @@ func runC05(c *Ctx) {
 							same = true
 						}
 					}
+					// two calls of the same (pure) lifetime helper with the same arguments
+					if ca, okA := m.(*ssa.Call); okA {
+						if cb, okB := lf.val.(*ssa.Call); okB && staticCallee(ca) != nil && staticCallee(ca) == staticCallee(cb) && len(ca.Call.Args) == len(cb.Call.Args) {
+							eq := true
+							for i := range ca.Call.Args {
+								x, y := ca.Call.Args[i], cb.Call.Args[i]
+								if x == y {
+									continue
+								}
+								nx, okx := constInt(x)
+								ny, oky := constInt(y)
+								if !(okx && oky && nx == ny) {
+									eq = false
+								}
+							}
+							if eq {
+								same = true
+							}
+						}
+					}
 				}
 				if !same {
 					bad = fmt.Sprintf("cache lifetime for %s is %s but must equal the message lifetime (%s): the entry outlives its cap and is served stale", cl.name, exprStr(lf.val), cl.what)
